@@ -300,7 +300,29 @@ class SimRng(np.random.Generator):
         return r if size is None else r.astype(np.int64)
 
 
-_HANDLED = {"choice", "uniform", "standard_normal", "poisson", "bit_generator", "spawn"}
+    # further primitives a refactoring might reach for: answered by the scheduler as quantile decisions too
+    def random(self, size=None, dtype=np.float64, out=None):
+        if out is not None:
+            raise UnmodelledRandomness("random(out=)")
+        return self._fill(size, lambda: self.sched.quantile("random"))
+
+    def integers(self, low, high=None, size=None, dtype=np.int64, endpoint=False):
+        if high is None:
+            low, high = 0, low
+        lo = int(np.asarray(low))
+        hi = int(np.asarray(high)) + (1 if endpoint else 0)
+        if hi <= lo:
+            raise ValueError("low >= high")
+        r = self._fill(size, lambda: min(hi - 1, lo + int(self.sched.quantile("integers") * (hi - lo))))
+        return r if size is None else np.asarray(r, dtype=dtype)
+
+    def normal(self, loc=0.0, scale=1.0, size=None):
+        lo = float(np.asarray(loc))
+        sc = float(np.asarray(scale))
+        return self._fill(size, lambda: lo + sc * float(_sp.ndtri(self.sched.quantile("normal"))))
+
+
+_HANDLED = {"choice", "uniform", "standard_normal", "poisson", "bit_generator", "spawn", "random", "integers", "normal"}
 for _name in dir(np.random.Generator):
     if _name.startswith("_") or _name in _HANDLED:
         continue
